@@ -56,10 +56,12 @@ func SingleBucket(name string, fs afero.Fs, metaFs afero.Fs, opts ...SingleOptio
 		return nil, err
 	}
 
+	objectFile := func(bucket, object string) (afero.Fs, string) { return fs, object }
+
 	b := &SingleBucketBackend{
 		name:      name,
 		fs:        fs,
-		metaStore: newMetaStore(metaFs, modTimeFsCalc(fs)),
+		metaStore: newMetaStore(metaFs, objectFile, modTimeFsCalc(fs)),
 	}
 	for _, opt := range opts {
 		if err := opt(b); err != nil {
